@@ -1,23 +1,48 @@
 #!/usr/bin/env python3
-"""Adds `unproved` lines for C05 position clauses (pf, range, pfl) that fail in /tmp/all_run.txt."""
-import re,sys
-path='/repo/verif_contracts_unproved.go'
-txt=open(path).read()
-have=set(re.findall(r'// @ unproved (\S+) (\S+)',txt))
-fn=None; add={}
+"""gen_unproved.py <check-log> [--reset PROP]: adds `unproved` lines to /repo/verif_contracts_unproved.go for
+position clauses (C05: pf range pfl pfq; C06: exact exactl nilkeeps and the helper clauses) that a check run
+left undecided or refuted and that are NOT listed as findings in /verif/known_findings.txt.
+An unproved clause is neither checked nor assumed inside its own function; callers assume it, and the
+evidence lists it under clauses_assumed_not_proved. Only position clauses may be listed here."""
+import re, sys
+path = '/repo/verif_contracts_unproved.go'
+ALLOWED = {'pf', 'range', 'pfl', 'pfq', 'exact', 'exactl', 'nilkeeps', 'inside', 'endpos', 'dirpos', 'brackets', 'nullpos', 'rparen', 'gtpos'}
+txt = open(path).read()
+have = set()
+for m in re.finditer(r'// @ unproved (\S+) (\S+)', txt):
+    for l in m.group(1).split(','):
+        have.add((l, m.group(2)))
+known = set(re.findall(r'^finding: property=\S+ obligation=(\S+)', open('/verif/known_findings.txt').read(), re.M))
+prop = None
+add = {}
 for line in open(sys.argv[1]):
-    m=re.match(r'^(FAIL|OK|UNSUP)\s+(\S+?):',line)
-    if m: fn=m.group(2); continue
-    m=re.match(r'^\s+(sat|unknown|timeout)\s+(\S+)',line)
-    if m and fn:
-        ob=m.group(2)
-        mm=re.match(r'post:(pf|range)(@r\d+)?$',ob) or re.match(r'inv-(?:keep|init):L\d+\.(pfl)(~\d+)?$',ob)
-        if mm: add.setdefault(fn,set()).add(mm.group(1))
-        else: print("OTHER",fn,ob)
-n=0
+    m = re.match(r'^(C\d\d) (quick|thorough):', line)
+    if m:
+        prop = m.group(1)
+    m = re.match(r'^  obligation (\S+)/(post|inv-keep|inv-init|step):(\S+) \((\w+)\)', line)
+    if not m:
+        continue
+    fn, kind, lab = m.group(1), m.group(2), m.group(3)
+    full = '%s/%s:%s' % (fn, kind, lab)
+    if full in known:
+        continue
+    site = ''
+    if kind == 'post':
+        mm = re.search(r'@r\d+$', lab)
+        site = mm.group(0) if mm else '@r0'
+    lab = re.sub(r'@r\d+$', '', lab)
+    lab = re.sub(r'~\d+$', '', lab)
+    lab = re.sub(r'^L\d+\.', '', lab)
+    if lab not in ALLOWED:
+        print('OTHER (not a position clause, left alone):', full)
+        continue
+    add.setdefault(fn, set()).add(lab + site)
+n = 0
 for f in sorted(add):
     for l in sorted(add[f]):
-        if not any(f==hf and l in hl.split(',') for hl,hf in have):
-            txt+='// @ unproved %s %s -- C05 position clause not yet discharged for this function\n'%(l,f); n+=1
-open(path,'w').write(txt)
-print("added",n)
+        if (l, f) not in have:
+            which = 'C06 exact-span' if l.split('@')[0] in ('exact', 'exactl', 'nilkeeps') else 'position'
+            txt += '// @ unproved %s %s -- %s clause not discharged for this function\n' % (l, f, which)
+            n += 1
+open(path, 'w').write(txt)
+print('added', n)
